@@ -96,13 +96,24 @@ def stage_free(chk, stats):
     # known findings) is only replayed from the corpus.
     n = 240 if chk.tier == 'quick' else 1500
     agg = {}
+    # corpus first: the schedules of past failures (known findings and repaired defects), whatever the tier
+    cdir = os.path.join(os.path.dirname(HERE), 'corpus', 'C16'); ncorpus = 0
+    for f in sorted(os.listdir(cdir)) if os.path.isdir(cdir) else []:
+        if not f.endswith('.json'): continue
+        c = json.load(open(os.path.join(cdir, f)))
+        if c.get('stage') != 'free' or (c.get('free_kwargs') or {}).get('liveness'): continue
+        if c['free_seed'] < n and (c.get('free_kwargs') or {}) == {'new_programs': 0}: continue      # part of the range below
+        _, r = c16free._pool_job((c['free_seed'], c.get('free_kwargs') or {})); ncorpus += 1
+        for sig, what in r['findings']:
+            chk.reject(sig, what, {'free_seed': c['free_seed'], 'stage': 'free', 'free_kwargs': c.get('free_kwargs') or {}, 'corpus': f'corpus/C16/{f}',
+                                   'how': f'./check C16 --replay corpus/C16/{f}'})
     for sd, r in c16free.run_many(range(n), {'new_programs': 0}):
         for sig, what in r['findings']:
             chk.reject(sig, what, {'free_seed': sd, 'stage': 'free', 'free_kwargs': {'new_programs': 0}, 'how': './check C16 --replay <this file>'})
         for he in r['harness_errors']:
             chk.notes.append(f'free-running stage, seed {sd}: harness error (not a finding): {str(he)[:200]}')
         for k, v in r['stats'].items(): agg[k] = agg.get(k, 0) + v
-    stats['free'] = dict(agg, schedules=n)
+    stats['free'] = dict(agg, schedules=n + ncorpus, corpus=ncorpus)
 
 
 def run(chk):
